@@ -55,7 +55,7 @@ def run(ctx):
         for impl in ("C", "Py"):
             envs[(fn, impl)] = Env(fn, impl, "none-int" if fn[0] == "O" else None)
     terms, meta = [], []
-    ncase = ctx.n(2500, 60000)
+    ncase = ctx.n(2500, 200000)
     novf = 0
     for it in range(ncase):
         fname = rng.choice(["weightedUnion", "weightedIntersection"])
